@@ -147,11 +147,12 @@ KANI_UNITS['tsops'] = {
 
 PROPERTIES = {
   'C02': {
-    'verus': ['tripcount', 'algebra', 'foldv'],
+    'verus': ['tripcount', 'algebra', 'foldv', 'dce'],
     'kani': ['fold', 'mirbin', 'induction'],
     'level': 'proof',
     'scope': 'arithmetic kernels only: constant folding, algebraic merging, operand reordering / comparison flipping, '
-             'induction-variable algebra, guard operators, trip-count closed forms; the statement-level pass drivers are not covered',
+             'induction-variable algebra, guard operators, trip-count closed forms; dead-code elimination keeps every operation that can '
+             'trap and every call (Binary and Call arms); the other statement-level pass drivers are not covered',
   },
   'C05': {
     'verus': ['lexer', 'tripcount'],
@@ -256,6 +257,8 @@ STANDING_ASSUMPTIONS = {
     'the induction variable is compared over mathematical integers; the in-range clause makes that equal to the wrapping run',
   ],
   'algebra': ['Verus/Z3 nonlinear arithmetic; vstd specs of i32::wrapping_mul / wrapping_add'],
+  'dce': ['Verus/Z3; PStr opaque with std Hash/Eq obeying the key model; '
+          'the enclosing match of optimize_stmt and optimize_stmts (which removes the statements flagged false) are not under contract (R14)'],
   'foldv': ['Verus/Z3; vstd specs of i32::checked_div / checked_rem / wrapping_* (truncating division)'],
   'depgraph': [
     'vstd models of HashMap / HashSet / Vec and their iterators; obeys_key_model::<ModuleReference>()',
